@@ -49,9 +49,14 @@ def build_and_test(d):
 
 def demo_cmd(src, d):
     """Standard build line for a demo: wraps are derived from the __wrap_ symbols it defines."""
+    if os.path.exists(os.path.join(src, "BUILD")):
+        return open(os.path.join(src, "BUILD")).read().strip().replace("{d}", d)
     cpp = os.path.exists(os.path.join(src, "demo.cpp"))
     demo = "demo.cpp" if cpp else "demo.c"
     text = open(os.path.join(src, demo)).read()
+    for f in os.listdir(src):
+        if f.endswith(".h"):
+            text += open(os.path.join(src, f)).read()
     wraps = sorted(set(re.findall(r"\b__wrap_(\w+)\s*\(", text)))
     cc = "g++ -std=c++11" if cpp else "gcc -std=gnu11"
     libs = "%s/_b/reproc/lib/libreproc.a" % d
